@@ -146,6 +146,9 @@ def set_owner_process(uid, gid, initgroups=False):
                 username = get_username(uid)
             except KeyError:
                 initgroups = False
+        else:
+            # no user to look the groups up for
+            initgroups = False
 
         if initgroups:
             os.initgroups(username, gid)
